@@ -136,6 +136,12 @@ func (w *World) parseType(s string, pkg *ssa.Package) types.Type {
 			return nil
 		}
 		return types.NewPointer(t)
+	case strings.HasPrefix(s, "[ref]"):
+		t := w.parseType(s[5:], pkg)
+		if t == nil {
+			return nil
+		}
+		return types.NewMap(types.Typ[types.UnsafePointer], t)
 	case strings.HasPrefix(s, "[]"):
 		t := w.parseType(s[2:], pkg)
 		if t == nil {
